@@ -561,6 +561,41 @@ func rulePayloadWidths(r *R) {
 				}
 			}
 		}
+		// a tail shared by several cases (the cases only decode their own length prefix and the content is
+		// read once after the switch) belongs to each of them: add the transfers of the blocks that are
+		// reachable from the case's own blocks and are not private to another case
+		for k := range per {
+			own := map[*ssa.BasicBlock]bool{}
+			for _, b := range fn.Blocks {
+				if kk, ok := singleton(sets[b].intersect(rng(0, 255))); ok && kk == k {
+					own[b] = true
+				}
+			}
+			seenT := map[*ssa.BasicBlock]bool{}
+			var walk func(b *ssa.BasicBlock)
+			walk = func(b *ssa.BasicBlock) {
+				for _, sc := range b.Succs {
+					if seenT[sc] || own[sc] {
+						continue
+					}
+					if _, private := singleton(sets[sc].intersect(rng(0, 255))); private {
+						continue
+					}
+					seenT[sc] = true
+					for _, in := range sc.Instrs {
+						if cc := callCommon(in); cc != nil {
+							if ww, ok := widthOfCall(cc, 0); ok {
+								per[k].add(ww)
+							}
+						}
+					}
+					walk(sc)
+				}
+			}
+			for b := range own {
+				walk(b)
+			}
+		}
 		var ks []int64
 		for k := range per {
 			ks = append(ks, k)
@@ -956,6 +991,46 @@ func ruleReadConversions(r *R) {
 					continue
 				}
 				k, single := singleton(sets[b].intersect(rng(0, 255)))
+				if !single && kind == types.String {
+					// the cases only decode their own length prefix and the content is taken once after the
+					// switch: the length is a phi with one edge per case
+					done := false
+					if cv, isC := st.Val.(*ssa.Convert); isC {
+						if call, isCall := cv.X.(*ssa.Call); isCall && callIs(&call.Call, "~/"+codecPkg+".(Reader).Next") {
+							lb, _ := convChain(call.Call.Args[1])
+							if phi, isPhi := lb.(*ssa.Phi); isPhi {
+								done = true
+								for i, e := range phi.Edges {
+									pred := phi.Block().Preds[i]
+									kk, okK := int64(0), false
+									for d := pred; d != nil && !okK; d = d.Idom() {
+										kk, okK = singleton(sets[d].intersect(rng(0, 255)))
+									}
+									eb, _ := convChain(e)
+									okk := false
+									if okK {
+										m := wirePayload[kk]
+										if _, isLd := eb.(*ssa.UnOp); isLd {
+											for d := pred; d != nil && !okk; d = d.Idom() {
+												if tw, isTmp := payloadTemp(eb, d); isTmp && tw == m {
+													okk = true
+												}
+											}
+										} else if tw, isTmp := payloadTemp(eb, pred); isTmp && tw == m {
+											okk = true
+										}
+										r.Check(okk, where, "store in case "+wname(kk), st.Pos(), "string = the next `length` bytes, length read from the %d-byte length field", "the string content must be Next(length) with length read from the %d-byte length field", m)
+									} else {
+										r.Undecided(where, "store to *data", st.Pos(), "a length reaches the shared content read from a block that belongs to no single wire type")
+									}
+								}
+							}
+						}
+					}
+					if done {
+						continue
+					}
+				}
 				if !single {
 					r.Undecided(where, "store to *data", st.Pos(), "the store is not inside a single wire-type case")
 					continue
